@@ -53,6 +53,8 @@ def gen_cases(seed, tier):
     # the model is asked for both modes of each input: strict twin cases
     twins = [PC.mk_case(c['desc']['ctx'], c['desc']['s'], False, c['desc']['origin']) for c in cases[::3]]
     cases += twins
+    import random
+    cases += PC.state_stream(random.Random(seed + 79), 400 if tier == 'quick' else 6000, modes=(True,))
     # a context whose macros take comma-separated list arguments (real code only: that parser is outside the model)
     import docgen
     for s in docgen.exhaustive(docgen.SYM_COMMASEP, 3 if tier == 'quick' else 4):
